@@ -116,7 +116,9 @@ class C05(Property):
                     "wrap": rng.pick(["Motl", "EmMotl"])}
         h = rng.pick(handles)
         op = rng.weighted([("update", 3), ("scale", 2), ("shift", 4), ("rotate", 4), ("flip", 4), ("save", 2), ("load", 2),
-                           ("copy", 1)])
+                           ("copy", 1), ("filter", 2)])
+        if op == "filter":
+            return {"op": op, "sess": sess, "h": h, "tomo": rng.randrange(1, cfg["ntomo"] + 1), "pos": rng.randrange(0, 4)}
         if op == "update":
             return {"op": op, "sess": sess, "h": h}
         if op == "scale":
@@ -258,6 +260,34 @@ class C05(Property):
         if np.any(np.abs(np.abs(m.pos - np.floor(m.pos)) - 0.5) < 1e-12):
             world.probes["half_integer_tie"] += 1
         m.x, m.shift = gx.copy(), gs.copy()
+        world.stats["acks"] += 1
+        return []
+
+    def op_filter(self, world, step):
+        """remove_feature leaves the original row labels behind (a gapped index): every later operation must still
+        treat the remaining particles one by one"""
+        h = self.get(world, step)
+        m = h["model"]
+        other_idx = {c: j for j, c in enumerate(OTHER)}
+        tid = m.other[:, other_idx["tomo_id"]] if m.n else np.array([])
+        if m.n >= 2 and (tid == step["tomo"]).any() and not (tid == step["tomo"]).all():
+            keep = tid != step["tomo"]
+            out = world.call(step["sess"], h["obj"].remove_feature, "tomo_id", float(step["tomo"]))
+        elif m.n >= 2:
+            # a single tomogram: remove one particle by its (unique) tag instead, from the middle of the table
+            j = step["pos"] % m.n
+            tag = m.other[j, other_idx["geom5"]]
+            if (m.other[:, other_idx["geom5"]] == tag).sum() != 1:
+                raise Skip()
+            keep = np.arange(m.n) != j
+            out = world.call(step["sess"], h["obj"].remove_feature, "geom5", float(tag))
+        else:
+            raise Skip()
+        if not out.ok:
+            raise Violation("op_raised", "remove_feature:%s" % out.describe(), "remove_feature raised %r\n%s" % (out.exc, out.tb))
+        h["model"] = Pose(m.x[keep], m.shift[keep], [r for r, k in zip(m.R, keep) if k], m.other[keep])
+        self.compare(world, h["obj"].df, h["model"], "after remove_feature")
+        world.probes["gapped_index"] += 1
         world.stats["acks"] += 1
         return []
 
